@@ -231,3 +231,19 @@ Theorem C07_engine_tables_change_only_in_go : forall iters fuel e line c e' out,
   (en_tt e' <> en_tt e \/ en_cache e' <> en_cache e) -> EngState.is_go_line line = true /\ EngBase.accepts_go e.
 Proof. exact EngState.tables_change_only_in_go. Qed.
 Print Assumptions C07_engine_tables_change_only_in_go.
+
+(* SESSION INVARIANT (GameThm/GameInv.v): "provided the positions it is given are legal game states, no input line kills the engine",
+   over whole sessions.  An in-domain line is anything that is not a position command, or a position command with a FIDE-legal game
+   from a legal position (or one the engine rejects with a message).  From process start every in-domain session that reaches the end
+   of its input leaves an engine whose state flag is not RUNNING, whose game (if any) has a legal root within the repetition stack,
+   and whose shared tables are those of a session of searches from legal positions (in particular: no mate value in the cache). *)
+From Clemens.GameThm Require GameInv.
+Theorem C07_session_invariant : forall iters fuel ls roots e e' out,
+  GameInv.engine_ok roots e -> GameInv.in_domain_session iters fuel e ls -> go_run iters fuel e ls = (SEof e', out) ->
+  GameInv.engine_ok (GameInv.searched_in iters fuel e ls ++ roots) e'.
+Proof. exact GameInv.session_invariant. Qed.
+Print Assumptions C07_session_invariant.
+
+Theorem C07_engine_init_ok : GameInv.engine_ok [] go_engine_init.
+Proof. exact GameInv.engine_init_ok. Qed.
+Print Assumptions C07_engine_init_ok.
